@@ -7,8 +7,9 @@
 
 #define MODEL_MAX 96   /* maximum file length */
 #define MODEL_CONTENT 24 /* bytes of content that are modelled; the rest of the file reads as 0 */
-#define MODEL_FD 3
 
+int verif_fd = 3;   /* the descriptor open() hands out: any value >= 0 chosen by the harness (0 is a legal descriptor) */
+#define MODEL_FD verif_fd
 unsigned char verif_file[MODEL_CONTENT];
 unsigned long verif_file_len = 0;
 int verif_missing = 0;
